@@ -271,7 +271,7 @@ impl GraphModel {
             // overflow 2 MiB. Cheap rounds are rendered in-process (they must end in the error —
             // a change that lets the limit be bypassed kills the worker and is reported);
             // expensive ones are the known shape F5.
-            if self.component_cycle_round_cost() <= 6 {
+            if self.component_cycle_round_cost() <= 4 {
                 None
             } else {
                 Some("include-cycle-through-component-call")
@@ -304,7 +304,37 @@ impl GraphModel {
             if !reaches[*n].contains(*n) {
                 continue;
             }
-            let cost: usize = names.iter().filter(|m| reaches[*n].contains(**m) && reaches[**m].contains(*n)).map(|m| self.ancestors(m).len() + 2).sum();
+            let scc: Vec<&String> = names.iter().filter(|m| reaches[*n].contains(**m) && reaches[**m].contains(*n)).cloned().collect();
+            let cost: usize = scc.iter().map(|m| self.ancestors(m).len() + 2).sum();
+            // a member that re-enters the cycle through more than one include statement makes
+            // the 20 rounds a tree (2^20 renders): finite, but not something to run in a worker
+            for m in &scc {
+                let mut entries = 0usize;
+                let mut count = |incs: &Vec<(String, Place)>, only_block: bool| {
+                    for (t, p) in incs {
+                        if only_block && *p == Place::Body {
+                            continue;
+                        }
+                        if let Some(r) = self.resolve(t) {
+                            if scc.iter().any(|x| **x == r) {
+                                entries += 1;
+                            }
+                        }
+                    }
+                };
+                count(&self.nodes[*m].incs, false);
+                let mut calls_super = self.nodes[*m].super_call;
+                for a in self.ancestors(m) {
+                    if !calls_super {
+                        break;
+                    }
+                    count(&self.nodes[&a].incs, true);
+                    calls_super = self.nodes[&a].super_call;
+                }
+                if entries > 1 {
+                    return usize::MAX;
+                }
+            }
             best = best.max(cost);
         }
         best
@@ -691,7 +721,14 @@ pub fn generate(seed: u64, tier: &str, property: &str) -> RegScenario {
 
     // ---- mutations: replacements that open or close cycles, dangle edges, flip resolution
     let n_mut = rng.range(1, 5);
-    for _ in 0..n_mut {
+    // sometimes the mutations happen on a clone (clone -> mutate -> publish): the original must
+    // keep resolving and rendering exactly as it did when the clone was taken
+    let clone_at = if rng.chance(1, 4) { Some(rng.below(n_mut)) } else { None };
+    for mi in 0..n_mut {
+        if clone_at == Some(mi) {
+            ops.push(Op::CloneSwap);
+            notes.push(OpNote::default());
+        }
         let x = rng.below(n);
         let mut s = specs[x].clone();
         let kind = rng.below(13);
